@@ -407,6 +407,25 @@ func (c *tctx) stmts(list []ast.Stmt, k func() string) string {
 		}
 	case *ast.DeclStmt:
 		gd := s.Decl.(*ast.GenDecl)
+		if gd.Tok == token.CONST {
+			// a local constant is a binding like any other
+			var binds []string
+			for _, sp := range gd.Specs {
+				vs := sp.(*ast.ValueSpec)
+				for i, n := range vs.Names {
+					if i >= len(vs.Values) {
+						c.bad(s, "constant declaration")
+					}
+					v, g, k := c.expr(vs.Values[i], kindOfType(vs.Type))
+					if k == "" || len(g) > 0 {
+						c.bad(s, "constant declaration")
+					}
+					c.kinds[n.Name] = k
+					binds = append(binds, fmt.Sprintf("let %s := %s in ", n.Name, v))
+				}
+			}
+			return "(" + strings.Join(binds, "") + rest() + ")"
+		}
 		if gd.Tok == token.VAR {
 			term := ""
 			var binds []string
@@ -695,9 +714,20 @@ func (p *pkg) structFields(name string) map[string]string {
 	return res
 }
 
-// translate emits the Gallina definition of one function
-func translate(w *strings.Builder, p *pkg, file, recv, name string) {
+// translateFn emits the Gallina definition of one function
+// identifiers that are keywords of Gallina (or names the generated file relies on) get an underscore
+var coqReserved = map[string]bool{"end": true, "in": true, "let": true, "fun": true, "match": true, "with": true, "then": true, "as": true,
+	"at": true, "fix": true, "cofix": true, "forall": true, "exists": true, "exists2": true, "where": true, "using": true, "Prop": true, "Set": true,
+	"SProp": true, "Some": true, "None": true, "inl": true, "inr": true, "negb": true, "list": true, "option": true, "Z": true, "mod": true}
+
+func translateFn(w *strings.Builder, p *pkg, file, recv, name string) {
 	fd := p.fn(file, recv, name)
+	ast.Inspect(fd, func(n ast.Node) bool {
+		if id, ok := n.(*ast.Ident); ok && coqReserved[id.Name] && id != fd.Name {
+			id.Name += "_"
+		}
+		return true
+	})
 	c := &tctx{p: p, name: p.name + "." + name, kinds: map[string]string{}}
 	var params []string
 	addParam := func(n, k string) {
@@ -825,6 +855,9 @@ func emitTranslated(path string, msg, topics, sess, svc *pkg) bool {
 	w.WriteString("(* GENERATED by /verif/tools/gentables (trans.go) from /repo's current working tree -- do not edit.\n")
 	w.WriteString("   Gallina translations of pure leaf functions of the library; the semantics of the fragment is Base/GoSem.v. *)\n")
 	w.WriteString("From Coq Require Import List ZArith Bool.\nFrom Base Require Import GoSem.\nImport ListNotations.\nOpen Scope Z_scope.\n\n")
+	translate := func(w *strings.Builder, p *pkg, file, recv, name string) {
+		section("translation of "+p.name+"."+name, func() { translateFn(w, p, file, recv, name) })
+	}
 	translate(&w, topics, "memtopics.go", "", "nextTopicLevel")
 	translate(&w, msg, "message.go", "", "ValidTopic")
 	translate(&w, msg, "message.go", "", "ValidQos")
